@@ -53,6 +53,9 @@ CHECKS = {
     "C11": ("boundary monitors on deserialize / serialize / *_schema / ValidationError.errors / graphql_schema type map (+ one graphql_sync execution) over enumerated alias x class-aliaser x dynamic-aliaser programs; oracle = two-line external-name formula, mismatches labelled by explanatory wrong formulas",
             "Exploration: for every generated object type and aliaser configuration the external name of each field is observed in 24 views (key consumed / produced, properties, required, dependentRequired of both schemas, error locs incl. validator-yielded aliases, GraphQL output / input / argument names) and compared with aliaser(class_aliaser(alias or name)); thorough enumerates the whole stated pool (exhaustive flag in the evidence), quick a seeded slice covering every pair of feature values.",
             "Trusted: the two-line formula and the source emitter of vf/c11_gen.py; GraphQL views only for GraphQL-legal names; methods checked for agreement only.", "DESIGN §5 C11"),
+    "C10": ("runtime monitoring: generated dataclasses whose validators write a call log and consult a harness pass/fail table; constructor counter; logical step budget; executable model of the documented run/skip/discard/merge rule; bounded-exhaustive core + seeded decorations",
+            "Exploration: every generated (class, field-status vector, failing set, aliaser) is executed through the real deserialize; which validators ran, in which order, what they read, the merged ValidationError.errors, the constructor count and termination (step budget / RecursionError) are compared with a model written from docs/validation.md and the statement. Thorough executes the complete core space of <=3 fields x <=3 validators in plain form plus seeded decorated forms; held on the K executions reported in the evidence.",
+            "Trusted: the model (vf/c10_model.py), the generated validators' own logging, the AST-visible dependency conventions. Not claimed: validators raising other exceptions, flattened/pattern/additional fields as dependencies, fall_back_on_default, class-level aliasers, non-dataclass object types. Known: F34.", "DESIGN §5 C10"),
 }
 PLANNED = {
 }
